@@ -26,6 +26,9 @@
 (* StreamProto selects StreamDAG:                                           *)
 (*   "walk"      goroutine walks the graph after the lock is gone (F2)      *)
 (*   "snapshot"  vertices collected under the lock, streamed from the copy  *)
+(* Writers push the new weight on the truncate signal channel (capacity     *)
+(* SignalBuf) while they hold ab.mux; the runTruncate loop drains it - as   *)
+(* long as it lives (LoopProto).                                            *)
 (*                                                                          *)
 (* Each process executes a straight-line program of micro steps (one per    *)
 (* lock operation / channel operation); Program(p) builds it from the       *)
@@ -39,7 +42,11 @@ CONSTANTS
                    \*   k: for "read": the number of ids received before the early exit (NAnc + 1 = no early exit)
                    \*      for "truncate": position of the cut found by the first walk
     StreamBuf,     \* capacity of the stream channel
-    Proto, StreamProto
+    SignalBuf,     \* capacity of the truncate signal channel (50 in the code)
+    Proto, StreamProto,
+    LoopProto,     \* "dies": runTruncate leaves its loop when a truncation fails (pinned code, finding F16);
+                   \* "survives": it logs the failure and keeps reading the channel (repaired code)
+    TruncMayFail   \* whether a truncation started by the loop can fail
 
 OpIds == DOMAIN Ops
 
@@ -59,9 +66,11 @@ VARIABLES
     closed,    \* walkers whose channels are closed
     chan,      \* operation -> number of elements in its stream channel
     chanClosed,\* operations whose stream channel is closed
-    panic      \* a send on a closed channel happened
+    panic,     \* a send on a closed channel happened
+    sigq,      \* number of weights waiting in the truncate signal channel
+    loopAlive  \* the runTruncate goroutine is still in its loop
 
-vars == <<pc, abR, abW, abWait, dgR, dgW, dgWait, sig, closed, chan, chanClosed, panic>>
+vars == <<pc, abR, abW, abWait, dgR, dgW, dgWait, sig, closed, chan, chanClosed, panic, sigq, loopAlive>>
 
 None == <<0, "none">>
 
@@ -91,7 +100,8 @@ Program(p) ==
         CASE o.kind = "read" ->
                <<I("abRLock")>> \o Walk(<<q, "w1">>, o.k) \o <<I("abRUnlock")>>
           [] o.kind = "write" ->
-               <<I("abLockAnn"), I("abLockAcq"), I("dgLockAnn"), I("dgLockAcq"), I("dgUnlock"), I("abUnlock")>>
+               \* CreateLeaf / AddLeaf: graph write, then the weight is pushed on the signal channel under the book lock
+               <<I("abLockAnn"), I("abLockAcq"), I("dgLockAnn"), I("dgLockAcq"), I("dgUnlock"), I("sigPush"), I("abUnlock")>>
           [] o.kind = "truncate" ->
                <<I("abLockAnn"), I("abLockAcq")>> \o GetV \o Walk(<<q, "w1">>, o.k) \o Walk(<<q, "w2">>, NAnc + 1)
                \o Walk(<<q, "w3">>, NAnc + 1) \o <<I("dgLockAnn"), I("dgLockAcq"), I("dgUnlock"), I("abUnlock")>>
@@ -126,6 +136,7 @@ Init ==
     /\ chan = [o \in OpIds |-> 0]
     /\ chanClosed = {}
     /\ panic = FALSE
+    /\ sigq = 0 /\ loopAlive = TRUE
 
 Adv(p) == pc' = [pc EXCEPT ![p] = @ + 1]
 DgReaders == {p \in Procs : dgR[p] > 0}
@@ -138,55 +149,59 @@ Step(p) ==
        CASE c.i = "abRLock" ->
               /\ abW = None /\ abWait = {}
               /\ abR' = abR \cup {p} /\ Adv(p)
-              /\ UNCHANGED <<abW, abWait, dgR, dgW, dgWait, sig, closed, chan, chanClosed, panic>>
+              /\ UNCHANGED <<abW, abWait, dgR, dgW, dgWait, sig, closed, chan, chanClosed, panic, sigq, loopAlive>>
          [] c.i = "abRUnlock" ->
               /\ abR' = abR \ {p} /\ Adv(p)
-              /\ UNCHANGED <<abW, abWait, dgR, dgW, dgWait, sig, closed, chan, chanClosed, panic>>
+              /\ UNCHANGED <<abW, abWait, dgR, dgW, dgWait, sig, closed, chan, chanClosed, panic, sigq, loopAlive>>
          [] c.i = "abLockAnn" ->
               /\ abWait' = abWait \cup {p} /\ Adv(p)
-              /\ UNCHANGED <<abR, abW, dgR, dgW, dgWait, sig, closed, chan, chanClosed, panic>>
+              /\ UNCHANGED <<abR, abW, dgR, dgW, dgWait, sig, closed, chan, chanClosed, panic, sigq, loopAlive>>
          [] c.i = "abLockAcq" ->
               /\ abW = None /\ abR = {}
               /\ abW' = p /\ abWait' = abWait \ {p} /\ Adv(p)
-              /\ UNCHANGED <<abR, dgR, dgW, dgWait, sig, closed, chan, chanClosed, panic>>
+              /\ UNCHANGED <<abR, dgR, dgW, dgWait, sig, closed, chan, chanClosed, panic, sigq, loopAlive>>
          [] c.i = "abUnlock" ->
               /\ abW' = None /\ Adv(p)
-              /\ UNCHANGED <<abR, abWait, dgR, dgW, dgWait, sig, closed, chan, chanClosed, panic>>
+              /\ UNCHANGED <<abR, abWait, dgR, dgW, dgWait, sig, closed, chan, chanClosed, panic, sigq, loopAlive>>
          [] c.i = "dgRLock" ->
               /\ dgW = None /\ dgWait = {}
               /\ dgR' = [dgR EXCEPT ![p] = @ + 1] /\ Adv(p)
-              /\ UNCHANGED <<abR, abW, abWait, dgW, dgWait, sig, closed, chan, chanClosed, panic>>
+              /\ UNCHANGED <<abR, abW, abWait, dgW, dgWait, sig, closed, chan, chanClosed, panic, sigq, loopAlive>>
          [] c.i = "dgRUnlock" ->
               /\ dgR' = [dgR EXCEPT ![p] = @ - 1] /\ Adv(p)
-              /\ UNCHANGED <<abR, abW, abWait, dgW, dgWait, sig, closed, chan, chanClosed, panic>>
+              /\ UNCHANGED <<abR, abW, abWait, dgW, dgWait, sig, closed, chan, chanClosed, panic, sigq, loopAlive>>
          [] c.i = "dgLockAnn" ->
               /\ dgWait' = dgWait \cup {p} /\ Adv(p)
-              /\ UNCHANGED <<abR, abW, abWait, dgR, dgW, sig, closed, chan, chanClosed, panic>>
+              /\ UNCHANGED <<abR, abW, abWait, dgR, dgW, sig, closed, chan, chanClosed, panic, sigq, loopAlive>>
          [] c.i = "dgLockAcq" ->
               /\ dgW = None /\ DgReaders = {}
               /\ dgW' = p /\ dgWait' = dgWait \ {p} /\ Adv(p)
-              /\ UNCHANGED <<abR, abW, abWait, dgR, sig, closed, chan, chanClosed, panic>>
+              /\ UNCHANGED <<abR, abW, abWait, dgR, sig, closed, chan, chanClosed, panic, sigq, loopAlive>>
          [] c.i = "dgUnlock" ->
               /\ dgW' = None /\ Adv(p)
-              /\ UNCHANGED <<abR, abW, abWait, dgR, dgWait, sig, closed, chan, chanClosed, panic>>
+              /\ UNCHANGED <<abR, abW, abWait, dgR, dgWait, sig, closed, chan, chanClosed, panic, sigq, loopAlive>>
+         [] c.i = "sigPush" ->   \* ab.truncateSignal <- weight : blocks while the channel is full
+              /\ sigq < SignalBuf
+              /\ sigq' = sigq + 1 /\ Adv(p)
+              /\ UNCHANGED <<abR, abW, abWait, dgR, dgW, dgWait, sig, closed, chan, chanClosed, panic, loopAlive>>
          [] c.i = "spawn" ->   \* AncestorsWalker: a momentary read lock, then the producer goroutine starts
               /\ dgW = None /\ dgWait = {}
               /\ pc' = [pc EXCEPT ![p] = @ + 1, ![c.w] = 1]
-              /\ UNCHANGED <<abR, abW, abWait, dgR, dgW, dgWait, sig, closed, chan, chanClosed, panic>>
+              /\ UNCHANGED <<abR, abW, abWait, dgR, dgW, dgWait, sig, closed, chan, chanClosed, panic, sigq, loopAlive>>
          [] c.i = "go" ->
               /\ pc' = [pc EXCEPT ![p] = @ + 1, ![c.w] = 1]
-              /\ UNCHANGED <<abR, abW, abWait, dgR, dgW, dgWait, sig, closed, chan, chanClosed, panic>>
+              /\ UNCHANGED <<abR, abW, abWait, dgR, dgW, dgWait, sig, closed, chan, chanClosed, panic, sigq, loopAlive>>
          [] c.i = "send" ->    \* producer: poll the stop signal; the blocking send itself is the joint step Handoff
               /\ sig[p] > 0
               /\ sig' = [sig EXCEPT ![p] = 0]
               /\ pc' = [pc EXCEPT ![p] = NAnc + 2]      \* fall out of the walk: to dgRUnlock
-              /\ UNCHANGED <<abR, abW, abWait, dgR, dgW, dgWait, closed, chan, chanClosed, panic>>
+              /\ UNCHANGED <<abR, abW, abWait, dgR, dgW, dgWait, closed, chan, chanClosed, panic, sigq, loopAlive>>
          [] c.i = "closeW" ->
               /\ closed' = closed \cup {p} /\ Adv(p)
-              /\ UNCHANGED <<abR, abW, abWait, dgR, dgW, dgWait, sig, chan, chanClosed, panic>>
+              /\ UNCHANGED <<abR, abW, abWait, dgR, dgW, dgWait, sig, chan, chanClosed, panic, sigq, loopAlive>>
          [] c.i = "recvEnd" ->  \* the range loop ends when the channel is closed
               /\ c.w \in closed /\ Adv(p)
-              /\ UNCHANGED <<abR, abW, abWait, dgR, dgW, dgWait, sig, closed, chan, chanClosed, panic>>
+              /\ UNCHANGED <<abR, abW, abWait, dgR, dgW, dgWait, sig, closed, chan, chanClosed, panic, sigq, loopAlive>>
          [] c.i = "recv" ->     \* only the closed case here (walk shorter than expected cannot happen: NAnc fixed)
               /\ FALSE
               /\ UNCHANGED vars
@@ -195,46 +210,57 @@ Step(p) ==
                  THEN panic' = TRUE /\ UNCHANGED sig
                  ELSE sig[c.w] = 0 /\ sig' = [sig EXCEPT ![c.w] = 1] /\ UNCHANGED panic
               /\ Adv(p)
-              /\ UNCHANGED <<abR, abW, abWait, dgR, dgW, dgWait, closed, chan, chanClosed>>
+              /\ UNCHANGED <<abR, abW, abWait, dgR, dgW, dgWait, closed, chan, chanClosed, sigq, loopAlive>>
          [] c.i = "drain" ->    \* for range ids {} : ends when the channel is closed (receiving is Handoff)
               /\ c.w \in closed /\ Adv(p)
-              /\ UNCHANGED <<abR, abW, abWait, dgR, dgW, dgWait, sig, closed, chan, chanClosed, panic>>
+              /\ UNCHANGED <<abR, abW, abWait, dgR, dgW, dgWait, sig, closed, chan, chanClosed, panic, sigq, loopAlive>>
          [] c.i = "push" ->
               /\ chan[c.w[1]] < StreamBuf
               /\ chan' = [chan EXCEPT ![c.w[1]] = @ + 1] /\ Adv(p)
-              /\ UNCHANGED <<abR, abW, abWait, dgR, dgW, dgWait, sig, closed, chanClosed, panic>>
+              /\ UNCHANGED <<abR, abW, abWait, dgR, dgW, dgWait, sig, closed, chanClosed, panic, sigq, loopAlive>>
          [] c.i = "closeChan" ->
               /\ chanClosed' = chanClosed \cup {c.w[1]} /\ Adv(p)
-              /\ UNCHANGED <<abR, abW, abWait, dgR, dgW, dgWait, sig, closed, chan, panic>>
+              /\ UNCHANGED <<abR, abW, abWait, dgR, dgW, dgWait, sig, closed, chan, panic, sigq, loopAlive>>
          [] c.i = "pop" ->
               /\ chan[c.w[1]] > 0
               /\ chan' = [chan EXCEPT ![c.w[1]] = @ - 1] /\ Adv(p)
-              /\ UNCHANGED <<abR, abW, abWait, dgR, dgW, dgWait, sig, closed, chanClosed, panic>>
+              /\ UNCHANGED <<abR, abW, abWait, dgR, dgW, dgWait, sig, closed, chanClosed, panic, sigq, loopAlive>>
          [] c.i = "popEnd" ->
               /\ chan[c.w[1]] = 0 /\ c.w[1] \in chanClosed /\ Adv(p)
-              /\ UNCHANGED <<abR, abW, abWait, dgR, dgW, dgWait, sig, closed, chan, chanClosed, panic>>
+              /\ UNCHANGED <<abR, abW, abWait, dgR, dgW, dgWait, sig, closed, chan, chanClosed, panic, sigq, loopAlive>>
 
 \* the unbuffered id channel: producer at "send" with no stop signal pending, consumer at "recv" or "drain"
 Handoff(w, p) ==
     /\ At(w, "send") /\ sig[w] = 0
     /\ Running(p) /\ Cur(p).w = w /\ Cur(p).i \in {"recv", "drain"}
     /\ pc' = [pc EXCEPT ![w] = @ + 1, ![p] = IF Cur(p).i = "recv" THEN @ + 1 ELSE @]
-    /\ UNCHANGED <<abR, abW, abWait, dgR, dgW, dgWait, sig, closed, chan, chanClosed, panic>>
+    /\ UNCHANGED <<abR, abW, abWait, dgR, dgW, dgWait, sig, closed, chan, chanClosed, panic, sigq, loopAlive>>
 
 \* the producer's select: when a signal is pending and a receiver is ready either branch may be taken;
 \* Step(w) covers the signal branch; with sig > 0 the default branch is not taken by Go's select only
 \* if the signal case is ready, which it is - so no further action here.
+
+\* runTruncate: take a weight from the channel; most weights do not trigger anything; a truncation it starts
+\* may fail (e.g. the tip is shallower than the truncation depth), and then the loop either ends or goes on
+LoopTake ==
+    /\ loopAlive /\ sigq > 0
+    /\ sigq' = sigq - 1
+    /\ \/ loopAlive' = TRUE
+       \/ TruncMayFail /\ loopAlive' = (LoopProto = "survives")
+    /\ UNCHANGED <<pc, abR, abW, abWait, dgR, dgW, dgWait, sig, closed, chan, chanClosed, panic>>
 
 AllDone == \A p \in Procs : pc[p] = 0 \/ Finished(p)
 
 Next ==
     \/ \E p \in Procs : Step(p)
     \/ \E w \in Walkers, p \in Procs : Handoff(w, p)
+    \/ LoopTake
     \/ AllDone /\ UNCHANGED vars
 
 Fairness ==
     /\ \A p \in Procs : WF_vars(Step(p))
     /\ \A w \in Walkers : \A p \in Procs : WF_vars(Handoff(w, p))
+    /\ WF_vars(LoopTake)
 
 Spec == Init /\ [][Next]_vars /\ Fairness
 
